@@ -184,6 +184,7 @@ type FuncVerifier struct {
 	entryParams    map[types.Object]Term
 	bindErrors     []string
 	globalWrites   []string
+	globalReads    map[string]bool
 	yieldVar       *types.Var
 	nondet         []string // sources of nondeterminism met while executing (for `functional`)
 	curState       *State
@@ -655,6 +656,11 @@ func (fv *FuncVerifier) globalKey(o types.Object) string {
 // non-nil expression and never reassigned anywhere in /repo is a constant reference (assumption listed in evidence).
 func (fv *FuncVerifier) readGlobal(st *State, o types.Object) Term {
 	s := fv.sortOf(o.Type())
+	if o.Pkg() != nil && strings.HasPrefix(o.Pkg().Path(), repoModule) && fv.globalReads != nil {
+		if _, isFn := o.Type().Underlying().(*types.Signature); !isFn {
+			fv.globalReads[relPkg(o.Pkg().Path())+"."+o.Name()] = true
+		}
+	}
 	if s == SRef && o.Pkg() != nil && strings.HasPrefix(o.Pkg().Path(), repoModule) && fv.prog.StableGlobal(o) {
 		name := fv.w.UFun("glob_"+sanitize(relPkg(o.Pkg().Path())+"."+o.Name()), nil, SRef, "")
 		t := Term{name, SRef}
